@@ -368,14 +368,16 @@ func (r *kvRun) step(i int, s Step) *Failure {
 		r.be.mr.FastForward(3 * time.Millisecond)
 	}
 	r.wrotePast = false
-	if !r.redis {
-		// every call at model time `now` must have run inside the real window around it:
-		// expirations sit at odd ticks, calls at even ones.
-		if time.Since(r.start) > time.Duration(r.now+1)*r.tick-r.tick/4 {
-			r.stalled = true
-		}
-	}
 	return nil
+}
+
+// checkWindow: every call at model time `now` must have run inside the real window around it (expirations sit at odd
+// ticks, calls at even ones).  Evaluated after EVERY step - a step that disagrees with the contract because the host
+// stalled past an expiration must not be judged either.
+func (r *kvRun) checkWindow() {
+	if !r.redis && time.Since(r.start) > time.Duration(r.now+1)*r.tick-r.tick/4 {
+		r.stalled = true
+	}
 }
 
 // anyOldVersion returns some previously handed out version: Put/PutMany must ignore the
@@ -431,6 +433,7 @@ func replayKv(b Behaviour, opt *Options) *Failure {
 			if p, pv := callPanics(func() { f = r.step(i, b[i]) }); p {
 				f = &Failure{Step: i, Sig: "kv: " + b[i].Str("op") + " panicked", Got: firstLine(fmt.Sprint(pv)), Want: b[i]}
 			}
+			r.checkWindow()
 			if f != nil {
 				break
 			}
